@@ -1059,6 +1059,49 @@ fn sub_c13_continued(input: &[u8], st: &mut Stats) -> R {
     Ok(())
 }
 
+/// long runs of type requests (300-800 calls) over a small argument alphabet: hundreds of
+/// distinct declarations, every one of them requested again many times, explicit ids and
+/// id-less instructions (forward pointers, module-scope lines) in between
+fn sub_c13_long(input: &[u8], st: &mut Stats) -> R {
+    let mut cs = Cs::new(input);
+    let p = pools();
+    let mut it = Interp::new();
+    it.env.small = cs.below(4) != 0;
+    let n = 300 + cs.below(500);
+    for _ in 0..n {
+        match cs.below(16) {
+            0..=8 => {
+                let mm = pick(&mut cs, &p.types);
+                it.call(&mut cs, mm)?
+            }
+            9 | 10 => {
+                let names = ["type_void", "type_bool", "type_int", "type_float", "type_vector", "type_pointer", "type_function", "type_struct", "type_array", "type_matrix"];
+                let mm = method(names[cs.below(names.len())]);
+                it.call(&mut cs, mm)?
+            }
+            11 => {
+                it.alloc_id()?;
+            }
+            12 => it.call(&mut cs, method("type_forward_pointer"))?,
+            13 => {
+                let mm = pick(&mut cs, &p.block_or_global);
+                it.call(&mut cs, mm)?
+            }
+            14 => {
+                let names = ["constant_bit32", "constant_true", "constant_null", "spec_constant_bit32"];
+                let mm = method(names[cs.below(names.len())]);
+                it.call(&mut cs, mm)?
+            }
+            _ => it.call(&mut cs, method("line"))?,
+        }
+    }
+    let (_m, it) = it.finish()?;
+    st.add("repeated_implicit_type_requests", it.repeated_type_requests as u64);
+    st.add("type_declarations_in_long_runs", it.model.types_global_values.len() as u64);
+    st.nontrivial(hash_str(&format!("{:?}{}", it.methods_called.len(), it.repeated_type_requests)) ^ hash64(input));
+    Ok(())
+}
+
 /// every generated type method: twice implicitly (same arguments), once explicitly
 fn sub_c13_type_sweep(input: &[u8], st: &mut Stats) -> R {
     let i = idx(input) as usize;
@@ -1129,6 +1172,7 @@ pub const C13_SUBS: &[Sub] = &[
     Sub { name: "type-sweep", f: sub_c13_type_sweep },
     Sub { name: "histories", f: sub_c13_histories },
     Sub { name: "continued-histories", f: sub_c13_continued },
+    Sub { name: "long-type-runs", f: sub_c13_long },
 ];
 
 pub fn c13_run(ctx: &Ctx) {
@@ -1136,6 +1180,7 @@ pub fn c13_run(ctx: &Ctx) {
     drive_enum(ctx, &C13_SUBS[0], pools().types.len() as u64);
     drive_random(ctx, &C13_SUBS[1], ctx.n(30_000, 15_000_000), 1500);
     drive_random(ctx, &C13_SUBS[2], ctx.n(10_000, 5_000_000), 1500);
+    drive_random(ctx, &C13_SUBS[3], ctx.n(150, 60_000), 12_000);
     if !ctx.quick() && !ctx.failed() {
         crate::fuzzing::drive_fuzz(ctx, "builder", 200000);
     }
@@ -1145,7 +1190,7 @@ pub fn c13_finish(ctx: &Ctx) -> i32 {
     crate::engine::finish(
         ctx,
         Finish {
-            rule: "cases: (a) every generated type method (and type_pointer): requested twice implicitly with equal arguments, once with an explicit id, once more implicitly; (b) histories of 0-50 calls dominated by type requests over a small argument alphabet (so repeats are frequent) with and without explicit ids, interleaved with id(), constants, module-level and block-level calls that fail after reserving an id, optionally continuing from new_from_module with bound 0 / 1 / random / near u32::MAX. (c) two- and three-phase histories: module() then new_from_module(module) and on, with type requests repeating declarations made before the hand-over. Oracle (model R4): fresh ids strictly increasing from 1 / the bound (a failed id-reserving call may skip one id), explicit ids returned unchanged; implicit type request returns the id of an earlier identical declaration and leaves the module unchanged, otherwise appends exactly one declaration with a fresh id; explicit request always appends; final probe = id(), module().header.bound == probe + 1 and > every allocated id. non-trivial = history with >= 1 repeated implicit type request and >= 1 failing id-reserving call (sweep: each type method); distinct = hash of the rendered history.",
+            rule: "cases: (a) every generated type method (and type_pointer): requested twice implicitly with equal arguments, once with an explicit id, once more implicitly; (b) histories of 0-50 calls dominated by type requests over a small argument alphabet (so repeats are frequent) with and without explicit ids, interleaved with id(), constants, module-level and block-level calls that fail after reserving an id, optionally continuing from new_from_module with bound 0 / 1 / random / near u32::MAX. (b') long runs of 300-800 calls dominated by type requests (hundreds of declarations, each requested again many times); (c) two- and three-phase histories: module() then new_from_module(module) and on, with type requests repeating declarations made before the hand-over. Oracle (model R4): fresh ids strictly increasing from 1 / the bound (a failed id-reserving call may skip one id), explicit ids returned unchanged; implicit type request returns the id of an earlier identical declaration and leaves the module unchanged, otherwise appends exactly one declaration with a fresh id; explicit request always appends; final probe = id(), module().header.bound == probe + 1 and > every allocated id. non-trivial = history with >= 1 repeated implicit type request and >= 1 failing id-reserving call (sweep: each type method); distinct = hash of the rendered history.",
             assumptions: vec!["histories never exhaust 2^32 ids".into()],
             trusted_base: vec!["builder model R4".into(), "generated call sites".into()],
         },
@@ -1283,24 +1328,26 @@ fn parked_history(cs: &mut Cs, it: &mut Interp, st: &mut Stats) -> R {
             it.call(cs, method(name))?;
         }
     }
-    let nf = 1 + cs.below(3);
+    // one history in twenty-four is several times larger (up to nine functions of up to a dozen blocks)
+    let scale = if cs.below(24) == 0 { 3 } else { 1 };
+    let nf = 1 + cs.below(3 * scale);
     let mut fs: Vec<F> = vec![];
     let mut steps = 0usize;
     let mut parks = 0usize;
     let mut resumed_nonlast = 0usize;
     loop {
         steps += 1;
-        if steps > 400 {
+        if steps > 400 * scale * scale {
             return Err(fail("harness", "parked-history-does-not-terminate", it.render()));
         }
-        let calm = steps > 120; // no more parking: run to completion
+        let calm = steps > 120 * scale * scale; // no more parking: run to completion
         let (sf, sb) = it.selection();
         match sf {
             None => {
                 let unfinished: Vec<usize> = fs.iter().enumerate().filter(|(_, f)| !f.done).map(|(i, _)| i).collect();
                 if fs.len() < nf && (unfinished.is_empty() || cs.bool()) {
                     it.call(cs, method("begin_function"))?;
-                    fs.push(F { params_left: cs.below(3), blocks_left: cs.below(4), blocks_begun: 0, open: None, insts_left: 0, done: false, typed: vec![] });
+                    fs.push(F { params_left: cs.below(3), blocks_left: cs.below(4 * scale), blocks_begun: 0, open: None, insts_left: 0, done: false, typed: vec![] });
                 } else if !unfinished.is_empty() {
                     let i = unfinished[cs.below(unfinished.len())];
                     if i + 1 < fs.len() {
@@ -1364,7 +1411,7 @@ fn parked_history(cs: &mut Cs, it: &mut Interp, st: &mut Stats) -> R {
                             if it.selection().1.is_some() {
                                 fx.open = Some(fx.blocks_begun);
                                 fx.blocks_begun += 1;
-                                fx.insts_left = cs.below(4);
+                                fx.insts_left = cs.below(4 * scale);
                             }
                         } else {
                             it.call(cs, method("end_function"))?;
